@@ -25,23 +25,32 @@ the arena — any phase, inside or outside a callback, between `finish_marking()
 when its object is destructed (swept, or the arena dropped); other arenas and their sets act as an
 environment.  Interleaved with arbitrary collector-model ops (`GOp.gc`).
 
-Each clause is a `def …_statement : Prop` with the theorem of the same name proving it:
+Each clause is a `def X_statement : Prop` with `theorem X : X_statement`, for X =
+`coupled_run`, `set_object_mirrors_table`, `stashed_survives_while_handle`,
+`stashed_survives_in_window`, `not_in_set_after_last_drop`, `collectable_after_last_drop`,
+`fetch_is_the_stashed_object`, `fetch_holds`, `set_destroyed_iff_object_destructed`,
+`handles_outlive_arena` (plus the corollary `stashed_survives_pinned`):
 
-* `coupled_run` — the coupling relation `GCoupled` holds after every operation sequence.
-* `stashed_survives_while_handle` — first half; hypothesis: the set object is accessible (strongly
-  reachable from the root, or held) *in the state in question* — nothing about slots, pinning or
-  capacity.  `stashed_survives_in_window` is the reading over a window of a history,
-  `stashed_survives_pinned` the corollary for a set stored directly in a root slot.
-* `not_in_set_after_last_drop`, `collectable_after_last_drop` — second half.
+* `coupled_run` — the coupling relation `GCoupled` holds after every operation sequence; it includes
+  **a set of the arena is alive in the slot-table state iff its object is allocated and
+  undestructed** (`set_destroyed_iff_object_destructed`).
+* `stashed_survives_while_handle` — first half; hypotheses: `h` is a live handle, and its set object
+  is accessible (strongly reachable from the root, or held) *in the state in question*.  Nothing
+  about slots, pinning, capacity, or the slot-table state (that the set is alive there is derived:
+  accessible ⇒ allocated and undestructed ⇒ not destroyed).
+* `collectable_after_last_drop` — second half, stated **across** the drop of the last handle: the
+  premise (every strong path from the root to `p` uses the edge set object → `p`) is about the state
+  before the drop, the conclusions about the state after it.
 * `fetch_is_the_stashed_object`, `fetch_holds` — `fetch` returns the content of the set object's slot.
-* `set_destroyed_iff_object_destructed`, `handles_outlive_arena`.
 
 What this rests on, beyond the two models (see the docstring of Proofs/DynReach.lean): one arena is
 modelled in detail, the others as environment ops on their own sets; two transitions of the set
 object are not `Arena.step`s (growing the slot list by an empty slot; clearing a slot — both
 `reslot`, proved to preserve the collector invariant `Inv` in every state); handle ops are atomic
-between collector-model ops (a drop inside a destructor during a sweep = the call split in two
-oracle-driven `collect` ops); `ref_count` overflow and `Weak::as_ptr` stay trusted.
+between collector-model ops — a drop inside a destructor during a sweep step is the history with the
+call split after that step, justified by `DynReach.clear_commutes_sweepOne` (clearing commutes with
+a sweep step on another object); `GSys` has no dynamic tie of its own (reading + the two component
+ties); `ref_count` overflow and `Weak::as_ptr` stay trusted.
 
 ## Existing ops only: the pinned system (`GcArena.DynCompose`, Proofs/DynCompose.lean) — `…_partial`
 
@@ -102,15 +111,19 @@ theorem coupled_run : coupled_run_statement :=
 allocated and undestructed; its slot list has exactly the table's length; slot `i` holds `r`
 strongly iff table slot `i` is `Occupied { root = r, .. }`, and is empty iff it is `Vacant`; hence
 its strong slots are exactly what `Collect for Slots` reports. -/
-theorem set_object_mirrors_table (n : Nat) (ops : List GOp) (S : GSys) (hS : S = (GSys.init n).run ops)
-    (s x : Nat) (rs : RootSet) (hloc : S.loc[s]? = some (some x)) (hl : S.d.liveSet s = some rs) :
+def set_object_mirrors_table_statement : Prop :=
+  ∀ (n : Nat) (ops : List GOp) (S : GSys), S = (GSys.init n).run ops →
+  ∀ (s x : Nat) (rs : RootSet), S.loc[s]? = some (some x) → S.d.liveSet s = some rs →
     S.a.alive = true ∧ Inv S.a ∧
     ∃ o, S.a.ctx.heap.get x = some o ∧ o.live = true ∧ o.slots = rs.slots.slots.map img ∧
       o.slots.length = rs.slots.slots.length ∧
       (∀ i r : Nat, o.slots[i]? = some (some (Ptr.strong r)) ↔
         ∃ c, rs.slots.slots[i]? = some (DynRoots.Slot.occupied r c)) ∧
       (∀ i : Nat, o.slots[i]? = some none ↔ ∃ nf, rs.slots.slots[i]? = some (DynRoots.Slot.vacant nf)) ∧
-      (∀ p, some (Ptr.strong p) ∈ o.slots ↔ p ∈ rs.slots.traced) := by
+      (∀ p, some (Ptr.strong p) ∈ o.slots ↔ p ∈ rs.slots.traced)
+
+theorem set_object_mirrors_table : set_object_mirrors_table_statement := by
+  intro n ops S hS s x rs hloc hl
   have hc : GCoupled S := by rw [hS]; exact coupled_run n ops
   obtain ⟨hal, o, ho, hlive, _, hs⟩ := hc.sets s x rs hloc hl
   refine ⟨hal, hc.inv hal, o, ho, hlive, hs, by rw [hs]; simp, ?_, ?_, ?_⟩
@@ -133,24 +146,22 @@ theorem set_object_mirrors_table (n : Nat) (ops : List GOp) (S : GSys) (hS : S =
   · intro p; rw [hs]; exact mem_map_img
 
 /-- **First half of C14, at full strength.**  In every state of every history of the general
-system: for a live handle `h` of a set of the arena that is alive, whose set object `x` the client
-can reach (`Accessible`: strongly reachable from the root, or held by the running callback, or
-readable from such an object) — the stashed object is accessible too, and it and everything strongly
-reachable from it is allocated, undestructed and not condemned by the running sweep.  If `x` is
-strongly reachable from the root alone, so is the stashed object.  The statement does not look at the
-payload: `stash` = backward barrier on the set object + licensed raw store, unconditionally in the
-stashed object's `Collect::NEEDS_TRACE` (a leaf needs no tracing but still has to be marked; the tie
-stashes leaf payloads — `require_static` struct, `Static<_>`, `Rc<_>`, zero-sized — into black sets). -/
+system: for a live handle `h` of a set of the arena whose set object `x` the client can reach
+(`Accessible`: strongly reachable from the root, or held by the running callback, or readable from
+such an object) — the stashed object is accessible too, and it and everything strongly reachable
+from it is allocated, undestructed and not condemned by the running sweep.  If `x` is strongly
+reachable from the root alone, so is the stashed object.  No hypothesis about the slot-table state:
+that the set is alive there follows from `x` being accessible (`GCoupled.alive_of_accessible`). -/
 def stashed_survives_while_handle_statement : Prop :=
   ∀ (n : Nat) (ops : List GOp) (S : GSys), S = (GSys.init n).run ops →
-  ∀ (h : Handle) (rs : RootSet) (x : Nat), h ∈ S.d.handles → S.d.liveSet h.set = some rs →
-    S.loc[h.set]? = some (some x) → Accessible S.a x →
+  ∀ (h : Handle) (x : Nat), h ∈ S.d.handles → S.loc[h.set]? = some (some x) → Accessible S.a x →
     Accessible S.a h.ptr ∧ (StrongReach S.a x → StrongReach S.a h.ptr) ∧
     ∀ j, AccessibleC S.a.ctx [] [Ptr.strong h.ptr] j → Safe S.a.ctx j
 
 theorem stashed_survives_while_handle : stashed_survives_while_handle_statement := by
-  intro n ops S hS h rs x hm hl hloc hacc
+  intro n ops S hS h x hm hloc hacc
   have hc : GCoupled S := by rw [hS]; exact coupled_run n ops
+  obtain ⟨_, rs, hl⟩ := hc.alive_of_accessible hloc hacc
   obtain ⟨_, hinv, o, ho, _, _, _, _, _, hmem⟩ := set_object_mirrors_table n ops S hS h.set x rs hloc hl
   have htr : h.ptr ∈ rs.slots.traced := C14.traced_while_handle S.dops S.d hc.dyn h hm rs hl
   have hp : some (Ptr.strong h.ptr) ∈ o.slots := (hmem h.ptr).2 htr
@@ -159,29 +170,31 @@ theorem stashed_survives_while_handle : stashed_survives_while_handle_statement 
     fun j hj => hinv.safe_of_accessible (closure_accessible hpa hj)⟩
 
 /-- The same over a window of a history: if after `pre` and after every further prefix of `win` the
-handle is live, its set alive and the set object accessible, then in each of those states the
-stashed object and its closure are `Safe` — it survives every collection call, increment and
-handle operation in the window. -/
-theorem stashed_survives_in_window (n : Nat) (pre win : List GOp) (h : Handle) (x : Nat)
-    (hwin : ∀ k, k ≤ win.length →
+handle is live and the set object accessible, then in each of those states the stashed object and
+its closure are `Safe` — it survives every collection call, increment and handle operation in the
+window. -/
+def stashed_survives_in_window_statement : Prop :=
+  ∀ (n : Nat) (pre win : List GOp) (h : Handle) (x : Nat),
+    (∀ k, k ≤ win.length →
       h ∈ ((GSys.init n).run (pre ++ win.take k)).d.handles ∧
-      (∃ rs, ((GSys.init n).run (pre ++ win.take k)).d.liveSet h.set = some rs) ∧
       ((GSys.init n).run (pre ++ win.take k)).loc[h.set]? = some (some x) ∧
-      Accessible ((GSys.init n).run (pre ++ win.take k)).a x) :
+      Accessible ((GSys.init n).run (pre ++ win.take k)).a x) →
     ∀ k, k ≤ win.length → ∀ j,
       AccessibleC ((GSys.init n).run (pre ++ win.take k)).a.ctx [] [Ptr.strong h.ptr] j →
-      Safe ((GSys.init n).run (pre ++ win.take k)).a.ctx j := by
-  intro k hk
-  obtain ⟨hm, ⟨rs, hl⟩, hloc, hacc⟩ := hwin k hk
-  exact (stashed_survives_while_handle n _ _ rfl h rs x hm hl hloc hacc).2.2
+      Safe ((GSys.init n).run (pre ++ win.take k)).a.ctx j
+
+theorem stashed_survives_in_window : stashed_survives_in_window_statement := by
+  intro n pre win h x hwin k hk
+  obtain ⟨hm, hloc, hacc⟩ := hwin k hk
+  exact (stashed_survives_while_handle n _ _ rfl h x hm hloc hacc).2.2
 
 /-- The pinned case as a corollary: a set stored directly in a root slot. -/
 theorem stashed_survives_pinned (n : Nat) (ops : List GOp) (S : GSys) (hS : S = (GSys.init n).run ops)
-    (h : Handle) (rs : RootSet) (x k : Nat) (hm : h ∈ S.d.handles) (hl : S.d.liveSet h.set = some rs)
+    (h : Handle) (x k : Nat) (hm : h ∈ S.d.handles)
     (hloc : S.loc[h.set]? = some (some x)) (hroot : S.a.root[k]? = some (some (.strong x))) :
     StrongReach S.a h.ptr ∧ ∀ j, AccessibleC S.a.ctx [] [Ptr.strong h.ptr] j → Safe S.a.ctx j := by
   have hr : StrongReach S.a x := .root x (List.mem_of_getElem? hroot)
-  obtain ⟨_, h2, h3⟩ := stashed_survives_while_handle n ops S hS h rs x hm hl hloc hr.accessible
+  obtain ⟨_, h2, h3⟩ := stashed_survives_while_handle n ops S hS h x hm hloc hr.accessible
   exact ⟨h2 hr, h3⟩
 
 /-- Strongly reachable from the root by a path that does not use the edge `x → p`. -/
@@ -189,6 +202,7 @@ inductive ReachAvoiding (c : Ctx) (root : List Slot) (x p : Nat) : Nat → Prop
   | root (t) : some (Ptr.strong t) ∈ root → ReachAvoiding c root x p t
   | edge (i t) : ReachAvoiding c root x p i → StrongEdge c i t → ¬ (i = x ∧ t = p) →
       ReachAvoiding c root x p t
+
 
 
 /-- Once no live handle of the alive set `s` has pointer `p`, the set object holds `p` in none of its
@@ -206,59 +220,142 @@ theorem not_in_set_after_last_drop : not_in_set_after_last_drop_statement := by
   rw [ho] at ho'; cases ho'
   exact C14.untraced_after_last_drop S.dops S.d hc.dyn s p rs hl hnone ((hmem p).1 hp)
 
-/-- **Second half of C14, at full strength.**  Outside callbacks, once no live handle of the alive
-set `s` has pointer `p`: if `p` is strongly reachable from the root by no route other than the edge
-"set object of `s` → `p`", it is not strongly reachable at all, and after two
-`arena.finish_cycle()` calls (ops `gfc` of the general system, i.e. two `.collect .finishCycle` ops
-of the collector model, each followed by `sync`) `p` is no longer an allocated undestructed object
-(`C02.exactness`). -/
+private theorem grun_snoc (ops : List GOp) (op : GOp) : ∀ S : GSys,
+    (S.run ops).step op = S.run (ops ++ [op]) := by
+  induction ops with
+  | nil => intro S; rfl
+  | cons o ops ih => intro S; simp only [List.cons_append, GSys.run]; exact ih _
+
+/-- What the coupled `dropHandle h` of a live handle does: the slot-table side is the DynRoots step;
+the arena keeps root, callback state and existence, and gains no strong edge (the set object loses
+one if this was the last handle of its slot). -/
+private theorem drop_step_spec (S : GSys) {h : Handle} (hm : h ∈ S.d.handles) :
+    (S.step (.dropHandle h)).d = DynRoots.next S.d (.dropHandle h) ∧
+    (S.step (.dropHandle h)).loc = S.loc ∧ (S.step (.dropHandle h)).a.root = S.a.root ∧
+    (S.step (.dropHandle h)).a.cb = S.a.cb ∧ (S.step (.dropHandle h)).a.alive = S.a.alive ∧
+    ∀ j t, StrongEdge (S.step (.dropHandle h)).a.ctx j t → StrongEdge S.a.ctx j t := by
+  simp only [GSys.step, hm, if_true]
+  have same : ∀ T : GSys, T = S.doD (.dropHandle h) →
+      T.d = DynRoots.next S.d (.dropHandle h) ∧ T.loc = S.loc ∧ T.a.root = S.a.root ∧
+      T.a.cb = S.a.cb ∧ T.a.alive = S.a.alive ∧
+      ∀ j t, StrongEdge T.a.ctx j t → StrongEdge S.a.ctx j t := by
+    intro T e; subst e; exact ⟨rfl, rfl, rfl, rfl, rfl, fun _ _ he => he⟩
+  split
+  · rename_i x rs _ _
+    split
+    · refine ⟨rfl, rfl, rfl, rfl, rfl, ?_⟩
+      rintro j t ⟨o', ho', hp⟩
+      change (Arena.setSlot S.a.ctx x h.index none).heap.get j = some o' at ho'
+      rw [setSlot_get] at ho'
+      split at ho'
+      · exact ⟨o', ho', hp⟩
+      · rename_i o ho
+        by_cases hj : j = x
+        · rw [if_pos hj] at ho'; cases ho'
+          refine ⟨o, by rw [hj]; exact ho, ?_⟩
+          rcases mem_set_slot hp with h1 | h1
+          · exact h1
+          · cases h1
+        · rw [if_neg hj] at ho'; exact ⟨o', ho', hp⟩
+    · exact same _ rfl
+  · exact same _ rfl
+
+/-- **Second half of C14, at full strength — across the drop.**  `h` is a live handle of a set of the
+arena (set object `x`), and the *last* live handle of that set for the object `p = h.ptr`; the arena
+exists and no callback is running.  Premise, in the state **before** the drop (where the edge
+`x → p` exists if the set is alive): every strong path from the root to `p` goes through that edge.
+Then in the state `S'` after `dropHandle h`: `p` is not strongly reachable from the root, and after
+two `arena.finish_cycle()` calls (ops `gfc`, i.e. two `.collect .finishCycle` ops of the collector
+model, each followed by `sync`) `p` is no longer an allocated undestructed object (`C02.exactness`). -/
 def collectable_after_last_drop_statement : Prop :=
   ∀ (n : Nat) (ops : List GOp) (S : GSys), S = (GSys.init n).run ops →
-  ∀ (s p x : Nat) (rs : RootSet), S.loc[s]? = some (some x) → S.d.liveSet s = some rs →
-    (∀ h ∈ S.d.handles, h.set = s → h.ptr ≠ p) → S.a.cb = none →
-    ¬ ReachAvoiding S.a.ctx S.a.root x p p →
-    ¬ StrongReach S.a p ∧
-    ((S.step gfc).step gfc).a.ctx = C02.finishCycle2 S.a.ctx S.a.root ∧
-    ¬ ∃ o, ((S.step gfc).step gfc).a.ctx.heap.get p = some o ∧ o.live = true
+  ∀ (h : Handle) (x : Nat), h ∈ S.d.handles → S.loc[h.set]? = some (some x) →
+    (∀ h' ∈ S.d.handles.erase h, h'.set = h.set → h'.ptr ≠ h.ptr) →
+    S.a.alive = true → S.a.cb = none →
+    ¬ ReachAvoiding S.a.ctx S.a.root x h.ptr h.ptr →
+    ¬ StrongReach (S.step (.dropHandle h)).a h.ptr ∧
+    (((S.step (.dropHandle h)).step gfc).step gfc).a.ctx =
+      C02.finishCycle2 (S.step (.dropHandle h)).a.ctx (S.step (.dropHandle h)).a.root ∧
+    ¬ ∃ o, (((S.step (.dropHandle h)).step gfc).step gfc).a.ctx.heap.get h.ptr = some o ∧ o.live = true
 
 theorem collectable_after_last_drop : collectable_after_last_drop_statement := by
-  intro n ops S hS s p x rs hloc hl hnone hcb hother
+  intro n ops S hS h x hm hloc hlast hal hcb hother
   have hc : GCoupled S := by rw [hS]; exact coupled_run n ops
-  obtain ⟨hal, _⟩ := hc.sets s x rs hloc hl
-  have hnot := not_in_set_after_last_drop n ops S hS s p x rs hloc hl hnone
-  have havoid : ∀ j, StrongReach S.a j → ReachAvoiding S.a.ctx S.a.root x p j := by
+  obtain ⟨d', l', r', cb', al', esub⟩ := drop_step_spec S hm
+  generalize hS' : S.step (.dropHandle h) = S' at d' l' r' cb' al' esub ⊢
+  have hS'run : S' = (GSys.init n).run (ops ++ [.dropHandle h]) := by
+    rw [← hS', hS]; exact grun_snoc ops _ _
+  have hc' : GCoupled S' := by rw [hS'run]; exact coupled_run n _
+  have hal' : S'.a.alive = true := by rw [al']; exact hal
+  have hcb' : S'.a.cb = none := by rw [cb']; exact hcb
+  have hinv' := hc'.inv hal'
+  -- in `S'` the set object does not hold `p`
+  have hnoedge : ¬ StrongEdge S'.a.ctx x h.ptr := by
+    rintro ⟨o, ho, hp⟩
+    have hloc' : S'.loc[h.set]? = some (some x) := by rw [l']; exact hloc
+    cases hl : S.d.liveSet h.set with
+    | some rs =>
+      -- the set is alive: it stays alive, the handle is gone, so the table no longer reports `p`
+      obtain ⟨rs', hrs'⟩ := next_alive S.d (.dropHandle h) h.set rs (by intro e; cases e) hl
+      rw [← d'] at hrs'
+      obtain ⟨_, hdec⟩ := (C14.no_panic_slots S.dops S.d hc.dyn h.set rs hl).2 h hm rfl
+      obtain ⟨sl, hsl⟩ := hdec
+      have hh : S'.d.handles = S.d.handles.erase h := by
+        rw [d']; simp [DynRoots.next, DynRoots.step, hm, hl, hsl]
+      exact not_in_set_after_last_drop n _ S' hS'run h.set h.ptr x rs' hloc' hrs'
+        (fun h' hm' => by rw [hh] at hm'; exact hlast h' hm') o ho hp
+    | none =>
+      -- the set was destroyed: its object is gone or a destructed shell without slots
+      have hnl : S'.d.liveSet h.set = none := by
+        rw [d']
+        exact (C14.destroyed_forever S.d h.set
+          (by rw [← hc.len]; exact (List.getElem?_eq_some_iff.1 hloc).1) hl [.dropHandle h]).1
+      have hno : objLive S'.a x = false := by
+        cases hv : objLive S'.a x with
+        | false => rfl
+        | true =>
+          obtain ⟨rs, hrs⟩ := hc'.live h.set x hloc' hv
+          rw [hnl] at hrs; cases hrs
+      cases hlv : o.live with
+      | true =>
+        have : objLive S'.a x = true := objLive_iff.2 ⟨hal', o, ho, hlv⟩
+        rw [hno] at this; cases this
+      | false =>
+        rw [hinv'.cinv.deadNoSlots x o ho hlv] at hp; cases hp
+  have havoid : ∀ j, StrongReach S'.a j → ReachAvoiding S.a.ctx S.a.root x h.ptr j := by
     intro j hj
     induction hj with
-    | root t ht => exact .root t ht
+    | root t ht => exact .root t (by rw [← r']; exact ht)
     | temp t ht => cases ht
     | edge i t _ e ih =>
-      refine .edge i t ih e ?_
+      refine .edge i t ih (esub i t e) ?_
       rintro ⟨rfl, rfl⟩
-      obtain ⟨o, ho, hp⟩ := e
-      exact hnot o ho hp
-  have hunreach : ¬ StrongReach S.a p := fun hr => hother (havoid p hr)
-  obtain ⟨c1, r1, cb1, al1⟩ := hc.finishCycle hal hcb
-  obtain ⟨c2, _, _, _⟩ := (hc.step gfc).finishCycle al1 cb1
-  have hctx : ((S.step gfc).step gfc).a.ctx = C02.finishCycle2 S.a.ctx S.a.root := by
+      exact hnoedge e
+  have hunreach : ¬ StrongReach S'.a h.ptr := fun hr => hother (havoid _ hr)
+  obtain ⟨c1, r1, cb1, al1⟩ := hc'.finishCycle hal' hcb'
+  obtain ⟨c2, _, _, _⟩ := (hc'.step gfc).finishCycle al1 cb1
+  have hctx : ((S'.step gfc).step gfc).a.ctx = C02.finishCycle2 S'.a.ctx S'.a.root := by
     rw [c2, c1, r1]; rfl
   refine ⟨hunreach, hctx, ?_⟩
   rw [hctx]
   intro hex
-  exact hunreach ((C02.exactness _ _ (cinv0 (hc.inv hal) hcb) p).mp hex)
+  exact hunreach ((C02.exactness _ _ (cinv0 hinv' hcb') h.ptr).mp hex)
 
-/-- **`fetch` returns the very object that was stashed.**  For a live handle `h` of the alive set
-`s` that issued it: `fetch` answers `h.ptr`, and `h.ptr` is what slot `h.index` of the set object
+/-- **`fetch` returns the very object that was stashed.**  For a live handle `h` of the set `s` of the
+arena that issued it, the set object `x` being accessible (the client calls `set.fetch(&h)` through
+the set pointer): `fetch` answers `h.ptr`, and `h.ptr` is what slot `h.index` of the set object
 holds. -/
 def fetch_is_the_stashed_object_statement : Prop :=
   ∀ (n : Nat) (ops : List GOp) (S : GSys), S = (GSys.init n).run ops →
-  ∀ (s x : Nat) (rs : RootSet) (h : Handle), S.loc[s]? = some (some x) → S.d.liveSet s = some rs →
+  ∀ (s x : Nat) (h : Handle), S.loc[s]? = some (some x) → Accessible S.a x →
     h ∈ S.d.handles → h.set = s →
     DynRoots.step S.d (.fetch s h) = .ok S.d (.ptr h.ptr) ∧
     ∃ o, S.a.ctx.heap.get x = some o ∧ o.slots[h.index]? = some (some (.strong h.ptr))
 
 theorem fetch_is_the_stashed_object : fetch_is_the_stashed_object_statement := by
-  intro n ops S hS s x rs h hloc hl hm hs
+  intro n ops S hS s x h hloc hacc hm hs
   have hc : GCoupled S := by rw [hS]; exact coupled_run n ops
+  obtain ⟨_, rs, hl⟩ := hc.alive_of_accessible hloc hacc
   obtain ⟨hf, _, _, hocc, _⟩ := (C14.fetch_identity S.dops S.d hc.dyn s rs h hl hm).1 hs
   obtain ⟨_, _, o, ho, _, _, _, hiff, _, _⟩ := set_object_mirrors_table n ops S hS s x rs hloc hl
   exact ⟨hf, o, ho, (hiff h.index h.ptr).2 hocc⟩
@@ -266,16 +363,20 @@ theorem fetch_is_the_stashed_object : fetch_is_the_stashed_object_statement := b
 /-- The coupled `fetch` inside a callback (of any kind, `finalize` included) that holds the set
 pointer: the read is accepted and returns the stashed pointer, which the callback then holds — hence
 it is `Safe`; heap, root and tables are unchanged. -/
-theorem fetch_holds (n : Nat) (ops : List GOp) (S : GSys) (hS : S = (GSys.init n).run ops)
-    (s x : Nat) (rs : RootSet) (h : Handle) (hloc : S.loc[s]? = some (some x))
-    (hl : S.d.liveSet s = some rs) (hm : h ∈ S.d.handles) (hs : h.set = s) (hcb : S.a.cb ≠ none)
-    (hx : S.a.holds (.strong x) = true) :
+def fetch_holds_statement : Prop :=
+  ∀ (n : Nat) (ops : List GOp) (S : GSys), S = (GSys.init n).run ops →
+  ∀ (s x : Nat) (h : Handle), S.loc[s]? = some (some x) → h ∈ S.d.handles → h.set = s →
+    S.a.alive = true → S.a.cb ≠ none → S.a.holds (.strong x) = true →
     (S.step (.fetch s h)).a.holds (.strong h.ptr) = true ∧
     (S.step (.fetch s h)).a.ctx = S.a.ctx ∧ (S.step (.fetch s h)).a.root = S.a.root ∧
-    (S.step (.fetch s h)).d = S.d ∧ Safe (S.step (.fetch s h)).a.ctx h.ptr := by
+    (S.step (.fetch s h)).d = S.d ∧ Safe (S.step (.fetch s h)).a.ctx h.ptr
+
+theorem fetch_holds : fetch_holds_statement := by
+  intro n ops S hS s x h hloc hm hs hal hcb hx
   have hc : GCoupled S := by rw [hS]; exact coupled_run n ops
-  obtain ⟨hal, _⟩ := hc.sets s x rs hloc hl
-  obtain ⟨_, o, ho, hslot⟩ := fetch_is_the_stashed_object n ops S hS s x rs h hloc hl hm hs
+  have hacc : Accessible S.a x := .temp x ((holds_iff _ _).1 hx)
+  obtain ⟨_, rs, hl⟩ := hc.alive_of_accessible hloc hacc
+  obtain ⟨_, o, ho, hslot⟩ := fetch_is_the_stashed_object n ops S hS s x h hloc hacc hm hs
   have hcs : S.a.cb.isSome = true := by cases hx : S.a.cb <;> simp_all
   have hcont : DynRoots.containsB s h = true := by simp [DynRoots.containsB, hs]
   have e : S.step (.fetch s h) =
@@ -295,44 +396,58 @@ theorem fetch_holds (n : Nat) (ops : List GOp) (S : GSys) (hS : S = (GSys.init n
   · have hal' : (S.a.step (.read x h.index)).1.alive = true := by rw [e1, c6]; exact hal
     exact (hc'.inv hal').ptrOK_of_holds (p := .strong h.ptr) hh
 
-/-- A set of the arena is alive in the slot-table state only if its object is allocated and
-undestructed; and a collector-model op that destructs the object of an alive set (a sweep step
-reaching it, or the arena drop) destroys the set in the same step of the general system. -/
-theorem set_destroyed_iff_object_destructed (n : Nat) (ops : List GOp) (S : GSys)
-    (hS : S = (GSys.init n).run ops) (s x : Nat) (hloc : S.loc[s]? = some (some x)) :
-    ((∃ rs, S.d.liveSet s = some rs) → objLive S.a x = true) ∧
+/-- **A set of the arena is alive in the slot-table state iff its object is allocated and
+undestructed** (and the arena exists); and a collector-model op that destructs the object of a set
+(a sweep step reaching it, or the arena drop) destroys the set in the same step of the general
+system. -/
+def set_destroyed_iff_object_destructed_statement : Prop :=
+  ∀ (n : Nat) (ops : List GOp) (S : GSys), S = (GSys.init n).run ops →
+  ∀ (s x : Nat), S.loc[s]? = some (some x) →
+    ((∃ rs, S.d.liveSet s = some rs) ↔ objLive S.a x = true) ∧
+    (S.d.liveSet s = none ↔ objLive S.a x = false) ∧
     (∀ op, S.allowed op = true → objLive (S.a.step op).1 x = false →
-      (S.step (.gc op)).d.liveSet s = none) := by
+      (S.step (.gc op)).d.liveSet s = none)
+
+theorem set_destroyed_iff_object_destructed : set_destroyed_iff_object_destructed_statement := by
+  intro n ops S hS s x hloc
   have hc : GCoupled S := by rw [hS]; exact coupled_run n ops
-  refine ⟨?_, ?_⟩
-  · rintro ⟨rs, hl⟩
-    obtain ⟨hal, o, ho, hlive, _⟩ := hc.sets s x rs hloc hl
-    simp [objLive, hal, ho, hlive]
+  have hiff := hc.alive_iff hloc
+  refine ⟨hiff, ?_, ?_⟩
+  · constructor
+    · intro hn
+      cases hv : objLive S.a x with
+      | false => rfl
+      | true => obtain ⟨rs, hrs⟩ := hiff.2 hv; rw [hn] at hrs; cases hrs
+    · intro hv
+      cases hl : S.d.liveSet s with
+      | none => rfl
+      | some rs => rw [hiff.1 ⟨rs, hl⟩] at hv; cases hv
   · intro op hal hdead
     have hc' : GCoupled (S.step (.gc op)) := hc.step _
     have e : S.step (.gc op) = ({ S with a := (S.a.step op).1 } : GSys).sync := by
       simp [GSys.step, hal]
+    have hloc' : (S.step (.gc op)).loc[s]? = some (some x) := by
+      rw [e]; unfold GSys.sync; rw [(GSys.doDs_spec _ _).2.1]; exact hloc
+    have ha : (S.step (.gc op)).a = (S.a.step op).1 := by rw [e, GSys.sync_a]
     cases hl : (S.step (.gc op)).d.liveSet s with
     | none => rfl
     | some rs =>
-      exfalso
-      have hloc' : (S.step (.gc op)).loc[s]? = some (some x) := by
-        rw [e]; unfold GSys.sync; rw [(GSys.doDs_spec _ _).2.1]; exact hloc
-      obtain ⟨hal', o, ho, hlive, _⟩ := hc'.sets s x rs hloc' hl
-      have ha : (S.step (.gc op)).a = (S.a.step op).1 := by rw [e, GSys.sync_a]
-      rw [ha] at hal' ho
-      simp [objLive, hal', ho, hlive] at hdead
+      have := (hc'.alive_iff hloc').1 ⟨rs, hl⟩
+      rw [ha, hdead] at this; cases this
 
 /-- Handles outlive their arena harmlessly: once the arena has been dropped, no set of the arena is
 alive, so cloning or dropping a handle of such a set only adds / removes the handle, and `fetch`
 on such a set is not a call a client can make. -/
-theorem handles_outlive_arena (n : Nat) (ops : List GOp) (S : GSys) (hS : S = (GSys.init n).run ops)
-    (hdead : S.a.alive = false) (h : Handle) (hm : h ∈ S.d.handles) (x : Nat)
-    (hloc : S.loc[h.set]? = some (some x)) :
+def handles_outlive_arena_statement : Prop :=
+  ∀ (n : Nat) (ops : List GOp) (S : GSys), S = (GSys.init n).run ops →
+  S.a.alive = false → ∀ (h : Handle) (x : Nat), h ∈ S.d.handles → S.loc[h.set]? = some (some x) →
     S.d.liveSet h.set = none ∧
     DynRoots.step S.d (.clone h) = .ok { S.d with handles := h :: S.d.handles } (.handle h) ∧
     DynRoots.step S.d (.dropHandle h) = .ok { S.d with handles := S.d.handles.erase h } .unit ∧
-    DynRoots.step S.d (.fetch h.set h) = .illFormed := by
+    DynRoots.step S.d (.fetch h.set h) = .illFormed
+
+theorem handles_outlive_arena : handles_outlive_arena_statement := by
+  intro n ops S hS hdead h x hm hloc
   have hc : GCoupled S := by rw [hS]; exact coupled_run n ops
   have hnone : S.d.liveSet h.set = none := by
     cases hl : S.d.liveSet h.set with
@@ -400,9 +515,39 @@ example : ((GSys.init 1).run gdemo).a.ctx.heap.get 1 = none ∧
 /-- `stashed_survives_while_handle` applies in the state after the `finalize` callback's stash: the
 set object 1 is reachable (root → 0 → 1), not pinned; object 3 is white, the set was black. -/
 example : Safe ((GSys.init 1).run (gdemo.take 15)).a.ctx 3 :=
-  (stashed_survives_while_handle 1 (gdemo.take 15) _ rfl ⟨0, 0, 3, 1⟩
-    ⟨true, ⟨[.occupied 3 0], DynRoots.nullIndex⟩⟩ 1 (by decide) (by decide) (by decide)
+  (stashed_survives_while_handle 1 (gdemo.take 15) _ rfl ⟨0, 0, 3, 1⟩ 1 (by decide) (by decide)
     (.temp 1 (by decide))).2.2 3 (.temp 3 (by simp))
+
+/-- The state before the drop of the only handle of object 2 (`gdemo` op 10): root → 0 → set object 1
+→ 2, the `MarkedArena` outstanding. -/
+def beforeDrop : GSys := (GSys.init 1).run (gdemo.take 9)
+
+/-- In `beforeDrop` every strong path from the root to object 2 goes through the edge 1 → 2. -/
+theorem beforeDrop_only_via_set : ¬ ReachAvoiding beforeDrop.a.ctx beforeDrop.a.root 1 2 2 := by
+  have key : ∀ j, ReachAvoiding beforeDrop.a.ctx beforeDrop.a.root 1 2 j → j = 0 ∨ j = 1 := by
+    intro j hj
+    induction hj with
+    | root t ht =>
+      have : beforeDrop.a.root = [some (.strong 0)] := by decide
+      rw [this] at ht; simp at ht; exact .inl ht
+    | edge i t _ e hne ih =>
+      obtain ⟨o, ho, hp⟩ := e
+      rcases ih with rfl | rfl
+      · have : beforeDrop.a.ctx.heap.get 0 = some ⟨.black, true, true, [some (.strong 1)]⟩ := by decide
+        rw [this] at ho; cases ho; simp at hp; exact .inr hp
+      · have : beforeDrop.a.ctx.heap.get 1 = some ⟨.black, true, true, [some (.strong 2)]⟩ := by decide
+        rw [this] at ho; cases ho; simp at hp
+        exact absurd ⟨rfl, hp⟩ hne
+  intro h
+  rcases key 2 h with h | h <;> cases h
+
+/-- `collectable_after_last_drop` applies across that drop: afterwards object 2 is not strongly
+reachable, and two `finish_cycle` calls leave it neither allocated nor undestructed. -/
+example :
+    ¬ ∃ o, (((beforeDrop.step (.dropHandle ⟨0, 0, 2, 0⟩)).step gfc).step gfc).a.ctx.heap.get 2 = some o ∧
+      o.live = true :=
+  (collectable_after_last_drop 1 (gdemo.take 9) beforeDrop rfl ⟨0, 0, 2, 0⟩ 1 (by decide) (by decide)
+    (by decide) (by decide) (by decide) beforeDrop_only_via_set).2.2
 
 /-- environment: a set of another arena, a stash into it, a foreign handle presented to this arena's
 set is refused (`C14.fetch_identity`), and the relation is unaffected -/
